@@ -154,7 +154,8 @@ FlipJudged(R, pos)  == InRegion(R, pos)
 TruncJudged(R, m)   == \E r \in R : m < r.hi /\ r.chi <= m
 ExtendJudged(kind)  == CoversLength(kind)
 \* verdict codes of a load: 0 failed, 1 reported invalid, 2 accepted (same logical content),
-\* 3 accepted (logical content differs), 4 panic
+\* 3 accepted (logical content differs), 4 panic, 5 a single allocation of >= 2 GiB was requested (abort
+\* on a machine that refuses it)
 Rejected(code)      == code \in {0, 1}
 Accepted(code)      == code \in {2, 3}
 FaultOK(judged, code) == judged => Rejected(code)
